@@ -508,6 +508,22 @@ func (vc *VC) havocLoc(l Loc) {
 				vc.heapSet(name, sort, sto(h, l.Ref, sto(sel(h, l.Ref), l.Idx, vc.fresh(ls, "hv"))))
 			}
 		}
+	case 'B':
+		// call counters of a function value only grow
+		tn := "CB:total:" + l.TK
+		h := vc.heapGet(tn, chIdxSort)
+		nv := vc.fresh(bvSort(64), "cbtotal")
+		vc.assume("(bvule " + sel(h, l.Ref) + " " + nv + ")")
+		vc.heapSet(tn, chIdxSort, sto(h, l.Ref, nv))
+		wn := "CB:with:" + l.TK
+		if srt, ok := vc.heapSort[wn]; ok {
+			h := vc.heapGet(wn, srt)
+			inner := innerSort(srt) // (Array S (_ BitVec 64))
+			na := vc.fresh(inner, "cbwith")
+			ks := strings.TrimSuffix(strings.TrimPrefix(inner, "(Array "), " (_ BitVec 64))")
+			vc.assume(fmt.Sprintf("(forall ((a!q %s)) (! (bvule (select (select %s %s) a!q) (select %s a!q)) :pattern ((select %s a!q))))", ks, h, l.Ref, na, na))
+			vc.heapSet(wn, srt, sto(h, l.Ref, na))
+		}
 	case 'C':
 		vc.havocChan(l)
 	case 'M':
